@@ -47,6 +47,8 @@ def messages(remote_as=65002):
         ('update_ok', frame(2, UPDATE_OK)),
         ('update_bad', frame(2, UPDATE_BAD)),
         ('update_garbage', frame(2, b'\x00')),
+        ('update_raise', frame(2, b'\x00\x10\x00\x00')),
+        ('route_refresh_long', frame(5, b'\x00\x01\x00\x01\x00')),
         ('notif_version', frame(3, b'\x02\x01')),
         ('notif_cease', frame(3, b'\x06\x02')),
         ('notif_short', frame(3, b'\x06')),
